@@ -940,6 +940,12 @@ where
                                 this = self.as_mut().project();
                             } else {
                                 this.messages.push_back(DispatcherMessage::Item(req));
+
+                                // limit amount of non-processed requests; what is left in the
+                                // read buffer is decoded once the queue has been worked off
+                                if this.messages.len() >= MAX_PIPELINED_MESSAGES {
+                                    break;
+                                }
                             }
                         }
 
